@@ -18,8 +18,12 @@ impl LineIndex {
         line_offsets.push(0);
 
         let mut is_line_only_ascii = true;
-        for (index, byte) in text.as_bytes().iter().copied().enumerate() {
-            if byte == b'\n' {
+        let bytes = text.as_bytes();
+        for (index, byte) in bytes.iter().copied().enumerate() {
+            // Lines end at `\n`, `\r\n` or a lone `\r`, as in LSP and in the Lua lexer.
+            let is_line_end =
+                byte == b'\n' || (byte == b'\r' && bytes.get(index + 1) != Some(&b'\n'));
+            if is_line_end {
                 line_offsets.push((index + 1) as u32);
                 line_only_ascii_vec.push(is_line_only_ascii);
                 is_line_only_ascii = true;
